@@ -380,6 +380,19 @@ def fsmOracleCli (st : Client D) (m : Msg D) (impl : String) : List String :=
 
 def freshOf (ws : List String) : Nat := ((getField ws "fresh").bind (·.toNat?)).getD 0
 
+/-- The property clause "any malformed, out-of-order or wrong-digest authentication message
+closes the session": on a live, unauthenticated session (model state, validated so far by the
+correspondence) a frame that is an authentication violation must leave the session dead. -/
+def violationOracle (ses : Ses) (fr : Frame D) (impl : String) : List String :=
+  match fr with
+  | .auth m =>
+    if !ses.st.stopped && !ses.st.auth.isOk && !selfConnection ses.cfg ses.st && !ses.st.auth.accepts m then
+      match parseObs? impl with
+      | some o => if o.alive then ["auth-violation-did-not-close-session"] else []
+      | none => []
+    else []
+  | _ => []
+
 def closeTransport (ses : Ses) : Ses :=
   { ses with st := { ses.st with stopped := true } }
 
@@ -444,7 +457,8 @@ def step (st : St) (op impl : String) : St × StepOut :=
       let ses' : Ses := { ses with st := s', pg := applyPg ses.pg eff,
                                      authed := ses.authed || eff.contains Effect.authenticated }
       let rem := ((getField ws "rem").bind natList?).getD []
-      let (sesO, orc) := oracleOn ses' (some fr) tbl rem impl
+      let (sesO, orc1) := oracleOn ses' (some fr) tbl rem impl
+      let orc := orc1 ++ violationOracle ses fr impl
       let nt := eff.any (·.gated) || s'.stopped
       let nc := (eff.filter (fun e => match e with | .connect _ => true | _ => false)).length
       ({ st.set (k.toNat?.getD 0) sesO with connects := st.connects + nc },
